@@ -44,7 +44,7 @@ def upto_phase(a, b):
 
 
 def check_group(ctx, op, rng):
-    N = int(rng.choice([8, 16, 32, 64]))
+    N = int(rng.choice([8, 16, 32, 64, 9, 15, 33]))         # the group laws are algebraic: odd grids too
     lam = float(10 ** rng.uniform(-6.5, -5))
     d = float(10 ** rng.uniform(-4, -2))
     zc = N * d * d / lam                      # natural distance scale of the grid
